@@ -27,6 +27,25 @@ fn main() {
     if args.len() >= 3 && args[1] == "--history" {
         props::c06::history_main(&args[2]);
     }
+    if args.len() >= 3 && args[1] == "debug-grep" {
+        // prints how many generated programs contain the given text, and the first one
+        let (jobs, _) = props::c01::family_jobs(Tier::Quick, &["E", "S", "T", "P", "X", "A", "D"]);
+        let mut n = 0;
+        let mut first = None;
+        for j in &jobs {
+            let mut p = j.prog.clone();
+            let ids = p.assign_ids();
+            let t = gast::print_program(&p, ids).text;
+            if t.contains(&args[2]) {
+                n += 1;
+                if first.is_none() {
+                    first = Some(t);
+                }
+            }
+        }
+        println!("{n} of {} programs contain {:?}\n{}", jobs.len(), args[2], first.unwrap_or_default());
+        return;
+    }
     if args.len() >= 2 && args[1] == "debug-c06" {
         props::c06::debug();
         return;
